@@ -1,16 +1,104 @@
 /-
   PCV.Model.DrvHyrax — driver requests of the Hyrax scheme model (op names start with "hyrax.").
+  Everything is in scalar form: key scalars `ks`, `h`; hypercube evaluations; point; RNG draws;
+  squeezed challenges; proof components.
 -/
 import PCV.Model.Wire
 import PCV.Model.DrvUtil
+import PCV.Model.Hyrax
 namespace PCV
 namespace DrvHyrax
+open Driver Hyrax
+
+variable {p : Nat}
+
+def asFesss (v : Val) : R (List (List (List (Fp p)))) := do let xs ← asList v; xs.mapM asFess
+def asLabels (v : Val) : R (List (List Nat)) := do let xs ← asList v; xs.mapM asNats
+def vFess (xs : List (List (Fp p))) : Val := .l (xs.map vFes)
+
+/-- `nvs=[..] evals=[[..],..]` -/
+def getPolys (r : Req) : R (List (MLPoly (Fp p))) := do
+  let nvs ← asNats (← need r "nvs")
+  let evals ← asFess (← need r "evals")
+  pure (List.zipWith (fun n e => ⟨n, e⟩) nvs evals)
+
+/-- states: `rands=[[..],..] mat_n=[..] mat_m=[..] mats=[[[..],..],..]` -/
+def getStates (r : Req) : R (List (State (Fp p))) := do
+  let rands ← asFess (← need r "rands")
+  let ns ← asNats (← need r "mat_n")
+  let ms ← asNats (← need r "mat_m")
+  let mats ← asFesss (← need r "mats")
+  pure <| (rands.zip (ns.zip (ms.zip mats))).map fun (ρ, (n, (m, e))) => ⟨ρ, ⟨n, m, e⟩⟩
+
+/-- proofs by component: `com_eval com_d com_b z_d z_b r_eval` (lists of scalars), `zs` (list of lists) -/
+def getProofs (r : Req) : R (List (Proof (Fp p))) := do
+  let ce ← asFes (← need r "com_eval")
+  let cd ← asFes (← need r "com_d")
+  let cb ← asFes (← need r "com_b")
+  let zs ← asFess (← need r "zs")
+  let zd ← asFes (← need r "z_d")
+  let zb ← asFes (← need r "z_b")
+  let re ← asFes (← need r "r_eval")
+  pure <| (ce.zip (cd.zip (cb.zip (zs.zip (zd.zip (zb.zip re)))))).map
+    fun (a, (b, (c, (z, (d, (e, f)))))) => ⟨a, b, c, z, d, e, f⟩
+
+def vProofs (πs : List (Proof (Fp p))) : List (String × Val) :=
+  [("com_eval", vFes (πs.map (·.comEval))), ("com_d", vFes (πs.map (·.comD))),
+   ("com_b", vFes (πs.map (·.comB))), ("zs", vFess (πs.map (·.z))),
+   ("z_d", vFes (πs.map (·.zD))), ("z_b", vFes (πs.map (·.zB))),
+   ("r_eval", vFes (πs.map (·.rEval)))]
 
 /-- `none` = not an op of this module -/
 def handle (p : Nat) (r : Req) : Option (Except String String) :=
-  let _ := p
-  let _ := r
-  none
+  if !r.op.startsWith "hyrax." then none else some do
+  match r.op with
+  | "hyrax.tensor_prime" =>
+    let vs ← asFes (p := p) (← need r "values")
+    pure <| okReply [("t", vFes (tensorPrime vs))]
+  | "hyrax.flat_to_matrix" =>
+    let flat ← asFes (p := p) (← need r "flat")
+    let n ← asNat (← need r "n")
+    let m ← asNat (← need r "m")
+    pure <| exceptReply (flatToMatrixColumnMajor flat n m) fun rows => [("rows", vFess rows)]
+  | "hyrax.mle_eval" =>
+    let evals ← asFes (p := p) (← need r "evals")
+    let point ← asFes (p := p) (← need r "point")
+    pure <| okReply [("v", vFe (mleEval evals point))]
+  | "hyrax.commit" =>
+    let ks ← asFes (p := p) (← need r "ks")
+    let hh ← asFe (p := p) (← need r "h")
+    let polys ← getPolys (p := p) r
+    let draws ← asFes (p := p) (← need r "draws")
+    pure <| exceptReply (commit ks hh polys draws) fun (cs, sts, rest) =>
+      [("rows", vFes cs.flatten), ("lens", vNats (cs.map (·.length))),
+       ("rands", vFess (sts.map (·.randomness))),
+       ("mat_n", vNats (sts.map (·.mat.n))), ("mat_m", vNats (sts.map (·.mat.m))),
+       ("mats", .l (sts.map fun s => vFess s.mat.entries)),
+       ("used", .n (draws.length - rest.length))]
+  | "hyrax.open" =>
+    let ks ← asFes (p := p) (← need r "ks")
+    let hh ← asFe (p := p) (← need r "h")
+    let pl ← asLabels (← need r "plabels")
+    let cl ← asLabels (← need r "clabels")
+    let nvs ← asNats (← need r "nvs")
+    let sts ← getStates (p := p) r
+    let point ← asFes (p := p) (← need r "point")
+    let draws ← asFes (p := p) (← need r "draws")
+    let cs ← asFes (p := p) (← need r "cs")
+    let items : List (OpenItem (Fp p)) :=
+      (pl.zip (cl.zip (nvs.zip sts))).map fun (a, (b, (n, s))) => ⟨a, b, n, s⟩
+    pure <| exceptReply (Hyrax.open ks hh items point draws cs) fun πs =>
+      vProofs πs ++ [("k", .n πs.length)]
+  | "hyrax.check" =>
+    let ks ← asFes (p := p) (← need r "ks")
+    let hh ← asFe (p := p) (← need r "h")
+    let coms ← asFess (p := p) (← need r "coms")
+    let point ← asFes (p := p) (← need r "point")
+    let values ← asFes (p := p) (← need r "values")
+    let πs ← getProofs (p := p) r
+    let cs ← asFes (p := p) (← need r "cs")
+    pure <| exceptReply (check ks hh coms point values πs cs) fun b => [("b", vBool b)]
+  | _ => .error "unknown-op"
 
 end DrvHyrax
 end PCV
